@@ -5,7 +5,8 @@
 (use prelude)
 
 (def scratch (os/getenv "VERIF_SBX_SCRATCH"))
-(def in-thread (= "1" (os/getenv "VERIF_SBX_THREAD")))
+(def thread-mode (os/getenv "VERIF_SBX_THREAD"))   # "1": waiting ev/thread, "2": detached (:n) thread
+(def in-thread (or (= "1" thread-mode) (= "2" thread-mode)))
 (def marker (string scratch "/marker"))
 (def newpath (string scratch "/newfile"))
 
@@ -34,6 +35,11 @@
     :zero 0
     :r :r
     :w :w
+    :rt :rt
+    :wct :wct
+    :a :a
+    :r+ :r+
+    :w+ :w+
     :file-r pre-file-r
     :file-w pre-file-w
     :stream-r pipe-r
@@ -63,20 +69,27 @@
     (do (ev/with-deadline 5 (f ;args)) "ret")
     ([e] "err")))
 
+(defn- thread-body [[f specs scratch tc]]
+  (def marker (string scratch "/marker"))
+  (def args (map (fn [s] (case s
+                           :marker marker :newpath (string scratch "/newfile") :dir scratch
+                           :hostname "/etc/hostname" :addr "127.0.0.1" :port "9" :cmd ["/bin/true"]
+                           :envname "VERIF_MARKER_ENV" :zero 0 :table @{} :sig :usr1 s)) specs))
+  (def r (try (do (f ;args) "ret") ([e] "err")))
+  (when tc (ev/give tc r))
+  r)
+
 (defn call-thread [f specs]
   # the function value and the argument specs are sent to a thread started after sandboxing;
-  # the thread builds its own arguments
+  # the thread builds its own arguments. Mode 2 starts a detached thread (the :n path of ev/thread,
+  # also used by ev/spawn-thread) and waits for its report on a thread channel.
   (try
     (ev/with-deadline 5
-      (ev/thread
-        (fn [[f specs scratch]]
-          (def marker (string scratch "/marker"))
-          (def args (map (fn [s] (case s
-                                   :marker marker :newpath (string scratch "/newfile") :dir scratch
-                                   :hostname "/etc/hostname" :addr "127.0.0.1" :port "9" :cmd ["/bin/true"]
-                                   :envname "VERIF_MARKER_ENV" :zero 0 :table @{} :sig :usr1 s)) specs))
-          (try (do (f ;args) "ret") ([e] "err")))
-        [f specs scratch]))
+      (if (= "2" thread-mode)
+        (let [tc (ev/thread-chan 1)]
+          (ev/thread thread-body [f specs scratch tc] :n)
+          (ev/take tc))
+        (do (ev/thread thread-body [f specs scratch nil]) "ret")))
     ([e] (string "thread-failed: " e))))
 
 (batch-run
